@@ -1,4 +1,4 @@
-import CnbVerif.Lemmas.EnvSpec
+import CnbVerif.Lemmas.DeltaExt
 /-!
 # C04 — applying a layer environment follows the CNB modification rules exactly
 
@@ -79,6 +79,12 @@ theorem insert_order_irrelevant (ins ins' : List Ins) (hperm : ins.Perm ins')
   have : ∀ s, (fun b => lookIns ins s b n) = fun b => lookIns ins' s b n := by
     intro s; funext b; exact look_perm ins ins' hperm hnd s b n
   cases qs <;> simp only [this]
+
+/-- **M3b.** Stronger: the two environments are *equal* — for every scope, including every process type, they hold the
+same delta entry for entry (what Rust's `==` on `LayerEnv` compares: `BTreeMap`s in key order, the process `HashMap` by key). -/
+theorem insert_order_irrelevant_structural (ins ins' : List Ins) (hperm : ins.Perm ins')
+    (hnd : (ins.map Ins.key).Nodup) (s : Scope) : (buildEnv ins).scoped s = (buildEnv ins').scoped s :=
+  buildEnv_perm_scoped ins ins' hperm hnd s
 
 /-- **M4a.** `default` fills only an *unset* variable: an empty-string value is kept. -/
 theorem default_keeps_empty_string (s : Scope) (n v : Bytes) (env : Env) (h : env.get n = some []) :
